@@ -13,15 +13,25 @@ from symtorch import ops_c08 as _ops_c08  # noqa: F401  (registers the diag_embe
 META = dict(
     level="model_checking",
     bounds="bounding_box(params) of every catalogue shape (primitives, parameter-dependent primitives affine in t, one Boolean "
-           "operation of two primitives, independent products, translated/rotated primitives incl. parameter-dependent motion; "
-           "thorough: Sphere, nesting depth 2) with all shape parameters, the rotation angle (cos/sin pair) and k<=2 parameter "
-           "rows symbolic, one symbolic query point; Point domains (constant / moving); tightness for primitives at k<=1 rows; "
-           "NormalizationLayer on a symbolic member point; LHSSampler._create_lhs_in_bounding_box with n<=2 (quick) / 3 "
-           "(thorough) points, every draw and permutation symbolic",
+           "operation of two primitives, independent products, translated primitives incl. parameter-dependent translation; "
+           "rotations given as matrix [[c,-s],[s,c]] with symbolic c,s (c^2+s^2=1), as from_angles with symbolic angle "
+           "(cos/sin pair) and as from_angles with angle w0+w1*t; thorough: Sphere, nesting depth 2, rotated polygons with a "
+           "concrete non-axis-aligned inner polygon) with all shape parameters and k<=2 parameter rows symbolic and one symbolic "
+           "query point per case: oracle member => inside the box, per row and axis; the composition layer "
+           "(union/cut/intersection/product/translate/rotate) additionally on ARBITRARY operands of which only an enclosing "
+           "symbolic box is known; the unit square rotated by pi/4 and quarter turns; Point domains (number / tensor / moving, "
+           "k<=2); tightness box == exact extremes for primitives at k<=1 rows; ProductDomain.set_bounding_box; "
+           "NormalizationLayer on a symbolic member point; LHSSampler._create_lhs_in_bounding_box with n=2 (thorough also 3) "
+           "points, every draw and permutation symbolic: proposals in the box, every slab hit, every member coordinate in a slab",
     outside=["bounding box of a product whose first factor depends on the second (documented as a sampled approximation; only "
              "the set_bounding_box override is checked)", "shapely/trimesh primitives", "k>2 rows, nesting depth >2",
-             "the Latin-hypercube law itself (C11)"],
-    assumptions=["shapes have positive measure", "normalisation of intersections: the box has positive width on every axis"],
+             "the Latin-hypercube law itself (C11)", "rotated polygons with symbolic inner polygon AND symbolic rotation "
+             "(13 reals, non-linear: not decided within the budgets; covered by the abstract rotate cases + concrete inner polygon)"],
+    assumptions=["shapes have positive measure", "normalisation of intersections: the box has positive width on every axis",
+                 "builtin min()/max() in the polygon/union/intersection bounding_box code: the */fork cases execute them by "
+                 "forking one path per ordering; all other cases model them as if-then-else terms with the builtin's "
+                 "semantics (module globals shadowed, source untouched); both modes are run on the polygons",
+                 "replayed counterexamples are compared with a purely relative float slack (1e-9), the claims being scale-invariant"],
 )
 
 
@@ -102,7 +112,9 @@ def minmax_mode(env, mode):
 #   matrix : Rotate(domain, [[c,-s],[s,c]]) with inputs c, s, c^2+s^2=1
 #   angle  : Rotate.from_angles(domain, w) with (c, s) = (cos w, sin w) as inputs; the replay uses w = atan2(s, c)
 #   matrix[t]: Rotate(domain, R(t)) with the rational parametrisation u = u0+u1*t,
-#              c = (1-u^2)/(1+u^2), s = 2u/(1+u^2) (an exact rotation for every t)
+#              c = (1-u^2)/(1+u^2), s = 2u/(1+u^2) (an exact rotation for every t; used with abstract operands)
+#   angle[t] : Rotate.from_angles(domain, t -> w0+w1*t); one input pair (c_i, s_i) per parameter row, the replay
+#              solves w0 (and w1) from atan2 of the pairs
 
 
 def rotate_r(env, a, how, tag="rot", around=True):
